@@ -67,6 +67,9 @@ MUTATIONS = [
  ('m47', 'C12', 'src/sampler.rs', r's/                    draw \+= 1;\n                    if draw == draws \{\n                        break;\n                    \}\n\n                    msg = stop_marker_rx\.try_recv\(\);/                    draw += 1;\n                    if draw == draws {\n                        break;\n                    }\n                    if draw % 2 == 0 {\n                        msg = stop_marker_rx.try_recv();\n                    }/', 'the command channel is polled only after every second draw'),
  ('m48', 'C15', 'src/storage/zarr/async_impl.rs', r's/while writes_guard\.len\(\) >= max_queued_writes \{/while writes_guard.len() > max_queued_writes {/', 'async write queue may hold one write more than max_queued_writes'),
  ('m49', 'C15', 'src/storage/zarr/async_impl.rs', r's/                out\.context\("Failed to await previous trace write operation"\)\?\n                    \.context\("Chunk write operation failed"\)\?;/                let _ = out;/', 'queue_write drops the result of an earlier write it reaps'),
+ ('e13', 'C12', 'src/sampler.rs', r's/                        Err\(TryRecvError::Empty\) => \{\}\n                        Ok\(ChainCommand::Pause\) => \{\n                            msg = stop_marker_rx\.recv\(\)\.map_err\(\|e\| e\.into\(\)\);\n                            continue;\n                        \}\n                        Ok\(ChainCommand::Resume\) => \{\}/                        Ok(ChainCommand::Pause) => {\n                            msg = stop_marker_rx.recv().map_err(|e| e.into());\n                            continue;\n                        }\n                        Err(TryRecvError::Empty) | Ok(ChainCommand::Resume) => {}/', 'EQUIVALENT (match arms merged and reordered)'),
+ ('e14', 'C03', 'src/nuts.rs', r's/            if self\.depth > 0 \{\n                if !turning \{/            if self.depth >= 1 {\n                if !turning {/', 'EQUIVALENT (depth > 0 as depth >= 1 on an unsigned depth)'),
+ ('e15', 'C13', 'src/sampler.rs', r's/                    Ok\(\(None, trace\)\) => return SamplerWaitResult::Trace\(trace\),\n                    Err\(err\) => return SamplerWaitResult::Err\(err, None\),/                    Err(err) => return SamplerWaitResult::Err(err, None),\n                    Ok((None, trace)) => return SamplerWaitResult::Trace(trace),/', 'EQUIVALENT (match arms reordered)'),
  ('e01', 'C18', 'src/mclmc.rs', r's/&& self.draw_count == self.switch_draw/&& self.draw_count >= self.switch_draw/', 'EQUIVALENT on reachable states: must not be flagged'),
  ('e02', 'C08', 'src/math/cpu_math.rs', r's/\*mean \+= diff \* diff_scale;\n                \*var \+= diff \* diff;/*mean += diff * diff_scale;\n                *var += diff * (x - *mean);/', 'EQUIVALENT for the property (ratio of variances unchanged): must not be flagged'),
 ]
